@@ -6,3 +6,4 @@ CONSTANTS
 POSTCONDITION TraceAccepted
 CHECK_DEADLOCK FALSE
 ALIAS TraceAlias
+VIEW TraceView
